@@ -204,7 +204,45 @@ def representatives(consts, nvars, lo=0, hi=255):
     return sorted(r)
 
 
-def decide(F, rep, rule, path, shape, spec, allow=(), site_fn=None, cls=None):
+def _all_int_literals(F, path, seen=None):
+    """every integer literal of a function's typed tree — expressions and patterns, including arms a probe run does not visit"""
+    out = set()
+    b = F.body(path)
+    if b is None:
+        return out
+
+    def pat_lits(p):
+        if not isinstance(p, dict):
+            return
+        e = p.get("e")
+        if isinstance(e, dict) and e.get("lit") == "int" and isinstance(e.get("v"), int):
+            out.add(-e["v"] if e.get("neg") else e["v"])
+        for key in ("lo", "hi"):
+            x = p.get(key)
+            if isinstance(x, dict):
+                y = x.get("e") if isinstance(x.get("e"), dict) else x
+                if y.get("lit") == "int" and isinstance(y.get("v"), int):
+                    out.add(-y["v"] if y.get("neg") else y["v"])
+        for key in ("sub", "pat", "mid"):
+            pat_lits(p.get(key))
+        for key in ("pats", "before", "after"):
+            for q in p.get(key, []) or []:
+                pat_lits(q)
+        for fl in p.get("fields", []) or []:
+            if isinstance(fl, dict):
+                pat_lits(fl.get("pat"))
+    for n in tir.walk(b["tir"]["value"]):
+        if n.get("k") == "Lit" and n.get("lit") == "int" and isinstance(n.get("v"), int):
+            out.add(n["v"])
+        if n.get("k") == "Match":
+            for a in n["arms"]:
+                pat_lits(a.get("pat"))
+        if n.get("k") in ("Let", "LetCond"):
+            pat_lits(n.get("pat"))
+    return out
+
+
+def decide(F, rep, rule, path, shape, spec, allow=(), site_fn=None, cls=None, spec_consts=()):
     """shape: list of parameter arities (1 = scalar u8, 3 = Version triple). spec(args)->expected result."""
     ev = (cls or Evaluator)(F, allow_calls=set(allow) | {path})
     b = F.body(path)
@@ -220,7 +258,9 @@ def decide(F, rep, rule, path, shape, spec, allow=(), site_fn=None, cls=None):
     except Unsupported as e:
         rep.cannot(rule, path, e)
         return None
-    consts = set(c for c in ev.consts_seen if isinstance(c, int) and 0 <= c <= 255)
+    # the order types are taken over the constants of the code *and* of the specification: literals of arms the probe run did
+    # not visit (`(3, 0..=13) =>`), and the thresholds the spec distinguishes even when the code no longer mentions them
+    consts = set(c for c in (set(ev.consts_seen) | _all_int_literals(F, path) | set(spec_consts)) if isinstance(c, int) and 0 <= c <= 255)
     R = representatives(consts, nvars)
     total = bad = 0
     first = None
